@@ -178,6 +178,29 @@ def check(run):
                 run.violation(classify(dict(N=case['N'], kind='crash')), dict(build=build, case=case, returncode=r['returncode'], stderr=r['stderr'][-300:]))
             else:
                 run.note_inconclusive(f'{build} {key}: {r["status"]}')
+    # non-contiguous (strided) input and output views: same sums, nothing between the strided elements touched
+    from abacusnbody.util import cumsum as _cs
+
+    r2 = run.rng(6)
+    for t in range(60 if run.quick else 600):
+        N = int(r2.integers(0, 40))
+        initial, final = bool(r2.integers(0, 2)), bool(r2.integers(0, 2))
+        n_out = N - 1 + initial + final
+        if n_out < 0:
+            continue
+        step_a, step_o = int(r2.integers(2, 4)), int(r2.integers(2, 4))
+        abuf = r2.integers(-50, 50, N * step_a + 3).astype(np.int64)
+        obuf = np.full(n_out * step_o + 3, 777, dtype=np.int64)
+        arr, out = abuf[: N * step_a : step_a], obuf[: n_out * step_o : step_o]
+        keep = obuf.copy()
+        run.ev()
+        tot = _cs(arr, out, initial=initial, final=final, offset=3)
+        sel, total = ref_selected([int(x) for x in arr], 3, initial, final)
+        mask = np.ones(len(obuf), bool)
+        mask[: n_out * step_o : step_o] = False
+        run.nt(('strided', N, initial, final))
+        if [int(x) for x in out] != sel or int(tot) != total or not np.array_equal(obuf[mask], keep[mask]):
+            run.violation('cumsum-strided-views', dict(N=N, initial=initial, final=final, got=[int(x) for x in out][:6], expected=sel[:6], untouched_elements_changed=bool(not np.array_equal(obuf[mask], keep[mask]))))
     # the helper as used by hod/menv.concat_to_arr (list of neighbour lists, some of them empty)
     from abacusnbody.hod import menv
 
